@@ -42,45 +42,55 @@ SVCN = 'dot(var(service),name)'
 def lit_variants(rnd, name, consts):
     """the constant side of a comparison and its neighbours"""
     r = rnd.random()
-    if r < 0.70:
+    if r < 0.10:
         return S(name)
-    if r < 0.78:
+    if r < 0.40:
         c = [k for k, v in consts.items() if v == S(name)]
         return 'var(%s)' % (rnd.choice(c) if c else 'ArCH')
-    if r < 0.83:
+    if r < 0.50:
         return 'n(5)'
-    if r < 0.86:
+    if r < 0.58:
         return 'null'
-    if r < 0.89:
+    if r < 0.66:
         return rnd.choice(('t', 'f'))
-    if r < 0.93:
+    if r < 0.80:
         return S(name.swapcase())
-    if r < 0.96:
+    if r < 0.90:
         return HOSTN
     return S(name + ' ')
 
 
 def name_side(rnd, var):
     r = rnd.random()
-    if r < 0.72:
+    if r < 0.15:
         return 'dot(var(%s),name)' % var
-    if r < 0.82:
+    if r < 0.40:
         return 'ix(var(%s),s(%s))' % (var, hx('name'))
-    if r < 0.86:
+    if r < 0.50:
         return 'ix(var(%s),var(ArCName))' % var
-    if r < 0.90:
+    if r < 0.70:
         return 'dot(var(%s),display_name)' % var
+    if r < 0.78:
+        return 'dot(dot(var(%s),vars),name)' % var
     if r < 0.93:
-        return 'dot(var(%s),Name)' % var if False else 'dot(dot(var(%s),vars),name)' % var
-    if r < 0.96:
         return 'dot(var(%s),name)' % ('service' if var == 'host' else 'host')
     return 'dot(var(obj),name)' if rnd.random() < 0.3 else 'dot(var(%s),name)' % var
 
 
 def cmp_atom(rnd, var, name, consts, exact=False):
-    a = 'dot(var(%s),name)' % var if exact else name_side(rnd, var)
-    b = S(name) if exact else lit_variants(rnd, name, consts)
-    op = 'eq' if exact or rnd.random() < 0.9 else 'ne'
+    """exact: <var>.name == "<name>" (operands possibly swapped, still recognised);
+    otherwise exactly ONE edit: the name side, the constant side, or the operator"""
+    a = 'dot(var(%s),name)' % var
+    b = S(name)
+    op = 'eq'
+    if not exact:
+        r = rnd.random()
+        if r < 0.4:
+            a = name_side(rnd, var)
+        elif r < 0.8:
+            b = lit_variants(rnd, name, consts)
+        else:
+            op = 'ne'
     if rnd.random() < 0.35:
         a, b = b, a
     return '%s(%s,%s)' % (op, a, b)
@@ -108,14 +118,17 @@ def gen_filter(rnd, svc, hnames, snames, consts):
     def disj():
         h = rnd.choice(hnames)
         if not svc:
-            return cmp_atom(rnd, 'host', h, consts, exact)
+            if not exact and rnd.random() < 0.12:
+                # && of two host names where the grammar wants ||
+                return 'and(%s,%s)' % (cmp_atom(rnd, 'host', h, consts, True), cmp_atom(rnd, 'host', rnd.choice(hnames), consts, True))
+            return cmp_atom(rnd, 'host', h, consts, exact or rnd.random() < 0.5)
         s = rnd.choice(snames)
-        a = cmp_atom(rnd, 'host', h, consts, exact)
-        b = cmp_atom(rnd, 'service', s, consts, exact)
+        a = cmp_atom(rnd, 'host', h, consts, exact or rnd.random() < 0.6)
+        b = cmp_atom(rnd, 'service', s, consts, exact or rnd.random() < 0.6)
         if not exact:
             r = rnd.random()
             if r < 0.08:
-                b = cmp_atom(rnd, 'host', rnd.choice(hnames), consts)      # && of two host names
+                b = cmp_atom(rnd, 'host', rnd.choice(hnames), consts, True)      # && of two host names
             elif r < 0.14:
                 return a                                                   # host part only
             elif r < 0.18:
@@ -294,7 +307,7 @@ def gen_api_case(rnd):
 
 def generate(seed, tier):
     rnd = random.Random(seed * 7919 + 16)
-    n_rules, n_api = {'quick': (2600, 700), 'thorough': (30000, 8000), 'search': (6000, 1500)}.get(tier, (2600, 700))
+    n_rules, n_api = {'quick': (6000, 1600), 'thorough': (60000, 16000), 'search': (8000, 2000)}.get(tier, (6000, 1600))
     cases = [gen_rules_case(rnd) for _ in range(n_rules)]
     cases += [gen_api_case(rnd) for _ in range(n_api)]
     return cases
